@@ -245,6 +245,18 @@ func OracleNL(op M, res any, exec func(M) any) []Finding {
 		b = View(v)
 	}
 	switch name {
+	case "addBack":
+		if !isNL(res) || !a.WF() {
+			return out
+		}
+		r := View(res)
+		if !r.WF() || !r.Normal() {
+			add("C08", "a well-formed list is not well-formed and normalised after a fragment extracted from it was added back to it")
+		}
+		if len(r.IDs) != len(a.IDs) || !setEq(r.IDSet, a.IDSet) {
+			add("C08", "adding a fragment of a list back to it changes its nodes: %v, before %v", r.IDs, a.IDs)
+		}
+		return out
 	case "union", "add":
 		if !isNL(res) {
 			add("C09", "%s did not return a node list: %v", name, res)
